@@ -4,6 +4,10 @@ go 1.21.3
 
 require github.com/ModChain/secp256k1 v0.0.0
 
-require github.com/ModChain/blake256 v1.0.0
+require (
+	github.com/ModChain/base58 v1.0.0
+	github.com/ModChain/blake256 v1.0.0
+	golang.org/x/crypto v0.19.0
+)
 
 replace github.com/ModChain/secp256k1 => /repo
